@@ -186,6 +186,7 @@ def _piece(prog, ob, which, checks_on, qdir, timeout, cross, dlo, dhi, rec):
                     a = model['next_d'] * 1440 + model['next_min'] - 1        # clock one minute before the loop state, no previous result
                     tail = [a // 1440, (a % 1440) * 60, 'false', 0, 0]
                 rec['replay_fn'] = 'c17_replay_holds'; rec['model_args'] = setargs + [str(x) for x in tail]
+                rec['scan_fn'] = 'c17_replay_scan_holds'; rec['scan_args'] = setargs + ['738156', '1096']     # three clock values on each day of 2022-2024
                 break
             if r.verdict != 'unsat':
                 verdict = 'inconclusive'; rec['reason'] = 'query %s: %s' % (label, r.verdict)
